@@ -41,7 +41,8 @@ Let genv : env := g_genv G.
 Let FS : fsigs := g_sigs G.
 Let FT : list ident := map (fun kf => fd_name (snd kf)) (g_all G).
 Let TL : list ident := g_tl G.
-Let cp : bool := Nat.leb 6 lv.   (* level 6: copies of function objects, no assignment *)
+Let cp : bool := Nat.leb 6 lv.   (* level 6: copies of function objects, assignment only to int vars *)
+Let IV : list ident := CompileCorrect4Rel.ivs (g_all G) cp.
 
 Local Notation step := (ValueVM4.step X).
 Local Notation star := (ValueVM4.star X).
@@ -80,18 +81,31 @@ Local Notation MS_run := (CompileCorrect4Rel.MS_run (g_all G) (x_ftab X) TL FS c
 Local Notation MS_copy := (CompileCorrect4Rel.MS_copy (g_all G) (x_ftab X) TL FS cp).
 Local Notation ms_cp := (CompileCorrect4Rel.ms_cp (g_all G) (x_ftab X) TL FS cp).
 Local Notation ms_nocp := (CompileCorrect4Rel.ms_nocp (g_all G) (x_ftab X) TL FS cp).
+Local Notation ms_int := (CompileCorrect4Rel.ms_int (g_all G) (x_ftab X) TL FS cp).
+Local Notation MS_addint := (CompileCorrect4Rel.MS_addint (g_all G) (x_ftab X) TL FS cp).
 Local Notation vrel_fun := (CompileCorrect4Rel.vrel_fun (g_all G) (x_ftab X) TL FS cp).
 Local Notation vrel_intv := (CompileCorrect4Rel.vrel_intv (g_all G) (x_ftab X) TL FS cp).
+Local Notation vrel_kind := (CompileCorrect4Rel.vrel_kind (g_all G) (x_ftab X) TL FS cp).
 Local Notation fun_addr := (CompileCorrect4Rel.fun_addr (g_all G) (x_ftab X)).
 Local Notation cell_rel_intv := (CompileCorrect4Rel.cell_rel_intv (g_all G) (x_ftab X) TL FS).
-Local Notation env_match_g := (CompileCorrect4Rel.env_match G).
-Local Notation env_match_ext := (CompileCorrect4Rel.env_match_ext G).
-Local Notation env_match_push := (CompileCorrect4Rel.env_match_push G).
-Local Notation env_match_bind := (CompileCorrect4Rel.env_match_bind G).
+Local Notation env_match_g := (CompileCorrect4Rel.env_match G IV).
+Local Notation env_match_ext := (CompileCorrect4Rel.env_match_ext G IV).
+Local Notation env_match_push := (CompileCorrect4Rel.env_match_push G IV).
+Local Notation env_match_bind := (CompileCorrect4Rel.env_match_bind G IV).
 
 (* ---- what the proofs need to know about the program the code sits in ------------------------- *)
 
 Definition faddr (k : nat) : nat := nth k (x_ftab X) 0%nat.
+
+(* a level-6 condition of the fragment, for a name that may be assigned to *)
+Lemma at6_iv : forall b x, at6 lv b = true -> mem_id x IV = true ->
+  mem_id x (int_vars (g_all G)) = true /\ b = true.
+Proof.
+  intros b x H Hx. unfold IV, CompileCorrect4Rel.ivs, cp in Hx. unfold at6 in H.
+  destruct (Nat.leb 6 lv) eqn:E6; [|simpl in Hx; discriminate Hx].
+  assert (E5 : Nat.leb lv 5 = false) by (apply Nat.leb_le in E6; apply Nat.leb_gt; lia).
+  rewrite E5 in H. split; [exact Hx | exact H].
+Qed.
 
 Definition print_body : list rinstr := std_body (1%nat, lib_math_print).
 
@@ -146,7 +160,7 @@ Variable fr : fregs.         (* the registers fp / gp / exception and the suspen
 Variable fc : fctx.          (* the function whose code this is: own name if named nested, free variables *)
 Variable gl : list nat.      (* the content of its environment vector (r_gp fr) *)
 Local Notation mkst ip stk h o := (ValueVM4.mkst ip stk h o fr).
-Local Notation env_match := (CompileCorrect4Rel.env_match G fc (r_gp fr) gl).
+Local Notation env_match := (CompileCorrect4Rel.env_match G IV fc (r_gp fr) gl).
 
 (* ---- single steps ---------------------------------------------------------------------- *)
 
@@ -810,7 +824,16 @@ Proof.
   apply andb_true_iff in HF; destruct HF as [Fx Fb].
   apply andb_true_iff in Fx; destruct Fx as [Fx Fsh].
   apply andb_true_iff in Fx; destruct Fx as [Flv Fx].
-  assert (Hcpf : cp = false) by (unfold cp; apply Nat.leb_le in Flv; apply Nat.leb_gt; lia).
+  assert (Hsafe : forall c1 st1, eval genv k env st (EVar x) = (ROk c1, st1) -> cp = false \/ In c1 (mi m)).
+  { intros c1 st1 Ea. unfold at6 in Flv. destruct (Nat.leb lv 5) eqn:E5.
+    - left. unfold cp. apply Nat.leb_le in E5. apply Nat.leb_gt. lia.
+    - right. cbn [orb] in Flv.
+      assert (Hcp : cp = true) by (unfold cp; apply Nat.leb_gt in E5; apply Nat.leb_le; lia).
+      assert (Hxi : mem_id x IV = true) by (unfold IV, CompileCorrect4Rel.ivs; rewrite Hcp; exact Flv).
+      destruct (proj1 Hem x Fx) as (c & a & Hl & _).
+      destruct k as [|k']; [rewrite eval_O in Ea; discriminate|].
+      rewrite eval_EVar in Ea. unfold lookup_var in Ea. rewrite Hl in Ea. inversion Ea; subst.
+      exact (proj2 (proj2 (proj2 (proj2 (proj2 (proj2 (proj2 Hem)))))) x c1 Fx Hxi Hl). }
   assert (Fa : in_F (fc_self fc) lv sc (EVar x) = true) by (cbn [Compile4.in_F]; rewrite Fx; reflexivity).
   rewrite eval_EAssign in He.
   change (compile_expr fc L ce (EAssign (EVar x) rhs))
@@ -841,7 +864,10 @@ Proof.
   destruct (vrel_intv _ _ _ _ _ v HMS2 Hm2 G2 ltac:(destruct v; try discriminate Hiv; exact I)) as (z & P2 & Hv).
   assert (P2' : hint h2 a2 = Some z) by (unfold hint; rewrite P2; reflexivity).
   pose proof (MS_addr_lt _ _ _ _ _ HMS2 Hm1') as Hlt.
-  pose proof (MS_assign _ _ _ _ _ _ _ HMS2 Hcpf Hm1' Hv) as HMS3.
+  assert (Hsafe2 : cp = false \/ In c1 (mi m2)).
+  { destruct (Hsafe c1 st1 eq_refl) as [Hx | Hx]; [left; exact Hx | right].
+    eapply ext_mi; [eapply ext_trans; [exact Hext1 | exact Hext2] | exact Hx]. }
+  pose proof (MS_assign _ _ _ _ _ _ _ HMS2 Hsafe2 Hm1' Hv) as HMS3.
   inv He. simpl.
   apply (post_ok_intro _ _ _ _ _ _ (mkst (S (ip + length ca + length cb)) (a1 :: stk) (list_upd h2 a1 (HInt z)) (out st2)) m2 a1);
     simpl; auto.
@@ -852,10 +878,12 @@ Proof.
 Qed.
 
 Lemma items_F1_let : forall sc x e t, items_F (fc_self fc) lv sc (ILet x e :: t) =
-  negb (is_fname FS x) && negb (self_is (fc_self fc) x) && in_F (fc_self fc) lv sc e && items_F (fc_self fc) lv (x :: sc) t.
+  at6 lv (negb (mem_id x (int_vars (g_all G)))) &&
+  (negb (is_fname FS x) && negb (self_is (fc_self fc) x) && in_F (fc_self fc) lv sc e && items_F (fc_self fc) lv (x :: sc) t).
 Proof. reflexivity. Qed.
 Lemma items_F1_var : forall sc x e t, items_F (fc_self fc) lv sc (IVar x e :: t) =
-  negb (is_fname FS x) && negb (self_is (fc_self fc) x) && in_F (fc_self fc) lv sc e && items_F (fc_self fc) lv (x :: sc) t.
+  at6 lv (negb (mem_id x (int_vars (g_all G))) || int_shaped e) &&
+  (negb (is_fname FS x) && negb (self_is (fc_self fc) x) && in_F (fc_self fc) lv sc e && items_F (fc_self fc) lv (x :: sc) t).
 Proof. reflexivity. Qed.
 Lemma items_F1_expr : forall sc e t, items_F (fc_self fc) lv sc (IExpr e :: t) =
   in_F (fc_self fc) lv sc e && match t with [] => true | _ => items_F (fc_self fc) lv sc t end.
@@ -905,13 +933,14 @@ Lemma items_bind_step : forall k x e t, expr_spec k -> items_spec k ->
   | (ROk c, st1) => eval_items genv k ((x, c) :: env) st1 t (Some c)
   | r => r end = (r, st') ->
   forall sc, negb (is_fname FS x) && negb (self_is (fc_self fc) x) && in_F (fc_self fc) lv sc e && items_F (fc_self fc) lv (x :: sc) t = true ->
+  (mem_id x IV = true -> int_shaped e = true) ->
   forall prog L ce ip stk h o m,
     code_at prog ip (compile_expr fc L ce e ++ compile_items fc (L + 1) ((x, L + 1) :: ce) t) ->
     MS m st h -> o = out st -> env_match m env ce sc L stk ->
     items_concl prog (mkst ip stk h o) ip
       (compile_expr fc L ce e ++ compile_items fc (L + 1) ((x, L + 1) :: ce) t) (1 + nbinds t) m r st'.
 Proof.
-  intros k x e t IHe IHi env st r st' He sc HF prog L ce ip stk h o m Hc HMS Hout Hem.
+  intros k x e t IHe IHi env st r st' He sc HF Hxi prog L ce ip stk h o m Hc HMS Hout Hem.
   apply andb_true_iff in HF; destruct HF as [HF Ft].
   apply andb_true_iff in HF; destruct HF as [HF Fe].
   apply andb_true_iff in HF; destruct HF as [Hnx Hsx]. apply negb_true_iff in Hnx. apply negb_true_iff in Hsx.
@@ -922,9 +951,21 @@ Proof.
   destruct r1 as [c1|ex| |]; simpl in Ha; [| inv He; simpl; exc_here Ha | inv He; exact I | inv He; exact I].
   destruct Ha as (s1 & m1 & a1 & Hst1 & Hip1 & Hstk1 & Hm1 & HMS1 & Hext1 & Hout1 & Hfr1).
   destruct s1 as [ip1 stk1 h1 o1 fr1]; simpl in Hip1, Hstk1, HMS1, Hout1, Hfr1; subst ip1 stk1 fr1.
+  (* a name that may be assigned to: its cell, an int cell, is recorded *)
+  assert (Hadd : exists m1', MS m1' st1 h1 /\ ext m1 m1' /\ (mem_id x IV = true -> In c1 (mi m1'))).
+  { destruct (mem_id x IV) eqn:Exi.
+    - destruct (vrel_kind _ _ _ _ _ HMS1 Hm1) as (v & Hcv & _).
+      assert (Hiv : is_intv v = true) by (eapply int_shaped_cell; [apply Hxi; reflexivity | exact Ea | exact Hcv]).
+      destruct (MS_addint m1 st1 h1 c1 v HMS1 Hcv ltac:(destruct v; try discriminate Hiv; exact I)) as (A & B & C).
+      eexists. split; [exact A|]. split; [exact B|]. intros _. exact C.
+    - exists m1. split; [exact HMS1|]. split; [apply ext_refl|]. intros Hx; discriminate Hx. }
+  destruct Hadd as (m1' & HMS1' & Hext1' & Hci).
+  assert (Hext1n : ext m m1') by (eapply ext_trans; [exact Hext1 | exact Hext1']).
+  assert (Hm1n : vrel m1' c1 a1) by (eapply vrel_ext; [exact Hext1' | exact Hm1]).
+  clear Hext1 Hm1 HMS1 Hext1'. clear m1. rename m1' into m1. rename Hext1n into Hext1. rename Hm1n into Hm1. rename HMS1' into HMS1.
   pose proof (IHi t _ _ _ _ _ He (x :: sc) Ft prog (ip + length ca)%nat (L + 1) ((x, L + 1) :: ce)
                 (mkst (ip + length ca) (a1 :: stk) h1 o1) m1 (code_at_app_r _ _ _ _ Hc) eq_refl HMS1 Hout1
-                (env_match_bind _ _ _ _ _ _ _ _ _ x c1 a1 (env_match_ext _ _ _ _ _ _ _ _ _ _ Hem Hext1) Hm1 Hnx Hsx)) as Ht.
+                (env_match_bind _ _ _ _ _ _ _ _ _ x c1 a1 (env_match_ext _ _ _ _ _ _ _ _ _ _ Hem Hext1) Hm1 Hnx Hsx Hci)) as Ht.
   fold ct in Ht. unfold items_concl in Ht |- *.
   destruct r as [c|ex| |]; cbv beta iota in Ht |- *; auto.
   - destruct Ht as (s2 & m2 & a2 & locals & Hst2 & Hip2 & Hstk2 & Hlen & Hm2 & HMS2 & Hext2 & Hout2 & Hfr2).
@@ -951,7 +992,7 @@ Qed.
 Lemma env_addrs : forall (m : morph) (env : Eval.env) ce sc L stk l,
   env_match m env ce sc L stk -> forallb (fun y => mem_id y sc) l = true ->
   exists addrs, Forall2 (resolves fc L ce stk gl) l addrs /\
-                Forall2 (fun y a => exists c, lookup y env = Some c /\ vrel m c a) l addrs.
+                Forall2 (fun y a => exists c, lookup y env = Some c /\ vrel m c a /\ (mem_id y IV = true -> In c (mi m))) l addrs.
 Proof.
   intros m env ce sc L stk l Hem. induction l as [|y t IH]; intros H.
   - exists []. split; constructor.
@@ -959,7 +1000,9 @@ Proof.
     destruct (IH Ht) as (addrs & H1 & H2).
     destruct (proj1 Hem y Hy) as (c & a & Hl & Hm & Hacc).
     exists (a :: addrs). split; constructor; eauto.
-    unfold access in Hacc. unfold resolves. destruct (clookup y ce); [exact Hacc | exact (proj2 (proj2 Hacc))].
+    2:{ exists c. split; [exact Hl|]. split; [exact Hm|]. intros Hyi.
+        exact (proj2 (proj2 (proj2 (proj2 (proj2 (proj2 (proj2 Hem)))))) y c Hy Hyi Hl). }
+    unfold access in Hacc. unfold resolves. destruct (clookup y ce); [exact Hacc | exact (conj (proj1 Hacc) (proj2 (proj2 Hacc)))].
 Qed.
 
 Lemma case_ELambda : forall k fd, expr_case_at (S k) (ELambda fd).
@@ -1039,27 +1082,30 @@ Proof.
   unfold Compile4.items_F in HF. cbn [Compile4.items_F_f] in HF. cbv zeta in HF. fold fds in HF.
   apply andb_true_iff in HF; destruct HF as [HF HFr]. apply andb_true_iff in HF; destruct HF as [_ Hrun].
   rewrite items_F_pending in HFr.
+  apply andb_true_iff in Hrun; destruct Hrun as [Hrun H6].
   unfold run_ok in Hrun. apply andb_true_iff in Hrun; destruct Hrun as [Hrun Hfv].
   apply andb_true_iff in Hrun; destruct Hrun as [Hnd Hnames].
   apply nodup_ids_NoDup in Hnd.
   assert (Hnew : forall f, In f fds -> mem_id (fd_name f) sc = false /\ is_fname (g_sigs G) (fd_name f) = false /\
-                                        self_is (fc_self fc) (fd_name f) = false).
+                                        self_is (fc_self fc) (fd_name f) = false /\ mem_id (fd_name f) IV = false).
   { intros f Hf. rewrite forallb_forall in Hnames. specialize (Hnames (fd_name f) (in_map fd_name _ _ Hf)).
     apply andb_true_iff in Hnames. destruct Hnames as [AB C]. apply andb_true_iff in AB. destruct AB as [A B].
-    apply negb_true_iff in A, B, C. auto. }
+    apply negb_true_iff in A, B, C. split; [exact B|]. split; [exact A|]. split; [exact C|].
+    destruct (mem_id (fd_name f) IV) eqn:Ei; [|reflexivity]. destruct (at6_iv _ _ H6 Ei) as [A' B'].
+    rewrite forallb_forall in B'. specialize (B' f Hf). rewrite A' in B'. discriminate B'. }
   (* the evaluator *)
   set (e' := run_env fds env st) in *. set (st1 := run_state fds env st) in *.
   assert (Hlen := ms_len _ _ _ HMS).
   (* the extended environment, for any recorded vectors *)
-  assert (Hem' : forall nv nf, CompileCorrect4Rel.env_match G fc (r_gp fr) gl
-                   {| mm := mm m ++ map MA (seq (length h) kk); mv := mv m ++ nv; mf := mf m ++ nf; mc := mc m |} e' ce'
+  assert (Hem' : forall nv nf, CompileCorrect4Rel.env_match G IV fc (r_gp fr) gl
+                   {| mm := mm m ++ map MA (seq (length h) kk); mv := mv m ++ nv; mf := mf m ++ nf; mc := mc m; mi := mi m |} e' ce'
                    (map fd_name fds ++ sc) L' Sk).
-  { intros nv nf. apply (env_match_run G fc (r_gp fr) gl m env ce sc L stk fds st h nv nf Hem Hnd Hnew Hlen). }
+  { intros nv nf. apply (env_match_run G IV fc (r_gp fr) gl m env ce sc L stk fds st h nv nf Hem Hnd Hnew Hlen). }
   (* what every function of the run captures *)
-  set (m0 := {| mm := mm m ++ map MA (seq (length h) kk); mv := mv m ++ []; mf := mf m ++ []; mc := mc m |}).
+  set (m0 := {| mm := mm m ++ map MA (seq (length h) kk); mv := mv m ++ []; mf := mf m ++ []; mc := mc m; mi := mi m |}).
   destruct (Forall2_build (fun f addrs =>
               Forall2 (resolves fc L' ce' Sk gl) (fvs_fd TL f) addrs /\
-              Forall2 (fun y a => exists c, lookup y e' = Some c /\ vrel m0 c a) (fvs_fd TL f) addrs) fds)
+              Forall2 (fun y a => exists c, lookup y e' = Some c /\ vrel m0 c a /\ (mem_id y IV = true -> In c (mi m0))) (fvs_fd TL f) addrs) fds)
     as (addrss & HA).
   { intros f Hf. rewrite forallb_forall in Hfv. specialize (Hfv f Hf). apply andb_true_iff in Hfv. destruct Hfv as [_ Hfv].
     destruct (env_addrs m0 e' ce' _ L' Sk _ (Hem' [] []) Hfv) as (addrs & A & B). exists addrs. auto. }
@@ -1077,8 +1123,8 @@ Proof.
   destruct (CompileCorrect4Base.filled_vecs X addrss ks H' _ _ Hfill) as (vs & Hlvs & Hvs).
   set (nv := combine vs addrss).
   set (nf := combine (seq (length (cells st)) kk) (map (fun f => (f, e')) fds)).
-  set (m' := {| mm := mm m ++ map MA (seq (length h) kk); mv := mv m ++ nv; mf := mf m ++ nf; mc := mc m |}).
-  assert (Hext : ext m m') by (split; [|split; [|split]]; simpl; [eexists; reflexivity | eexists; reflexivity | eexists; reflexivity | exists []; now rewrite app_nil_r]).
+  set (m' := {| mm := mm m ++ map MA (seq (length h) kk); mv := mv m ++ nv; mf := mf m ++ nf; mc := mc m; mi := mi m |}).
+  assert (Hext : ext m m') by ext_solve.
   assert (Hl1 : length addrss = kk) by (unfold kk; symmetry; clear -HA; induction HA; simpl; auto).
   assert (Hl2 : length ks = kk) by (unfold kk; symmetry; clear -HK; induction HK; simpl; auto).
   (* the states are related again *)
@@ -1155,9 +1201,15 @@ Proof.
   destruct items as [|it t]; [discriminate HF|].
   destruct it as [x e | x e | fd | e].
   - rewrite eval_items_ILet in He. rewrite items_F1_let in HF. rewrite compile_items_let in *.
+    apply andb_true_iff in HF; destruct HF as [H6 HF].
+    assert (Hxi : mem_id x IV = true -> int_shaped e = true).
+    { intros Hx. destruct (at6_iv _ _ H6 Hx) as [A B]. rewrite A in B. discriminate B. }
     change (nbinds (ILet x e :: t)) with (1 + nbinds t).
     eapply items_bind_step; eauto.
   - rewrite eval_items_IVar in He. rewrite items_F1_var in HF. rewrite compile_items_var in *.
+    apply andb_true_iff in HF; destruct HF as [H6 HF].
+    assert (Hxi : mem_id x IV = true -> int_shaped e = true).
+    { intros Hx. destruct (at6_iv _ _ H6 Hx) as [A B]. rewrite A in B. exact B. }
     change (nbinds (IVar x e :: t)) with (1 + nbinds t).
     eapply items_bind_step; eauto.
   - eapply items_run_step; eauto.
@@ -1226,10 +1278,11 @@ Proof.
     + auto.
     + intros a1 vec addr Hh. rewrite nth_error_app1; [exact Hh | apply nth_error_Some; congruence].
   - apply (ms_nocp _ _ _ HMS).
+  - apply (ms_int _ _ _ HMS).
 Qed.
 
 Lemma MS_print : forall m st h z, MS m st h -> MS m (print_num st z) h.
-Proof. intros m st h z HMS. constructor; [apply (ms_len _ _ _ HMS) | apply (ms_rel _ _ _ HMS) | apply (ms_inj _ _ _ HMS) | apply (ms_fun _ _ _ HMS) | apply (ms_vec _ _ _ HMS) | apply (ms_fcl _ _ _ HMS) | apply (ms_fself _ _ _ HMS) | apply (ms_cp _ _ _ HMS) | apply (ms_nocp _ _ _ HMS)]. Qed.
+Proof. intros m st h z HMS. constructor; [apply (ms_len _ _ _ HMS) | apply (ms_rel _ _ _ HMS) | apply (ms_inj _ _ _ HMS) | apply (ms_fun _ _ _ HMS) | apply (ms_vec _ _ _ HMS) | apply (ms_fcl _ _ _ HMS) | apply (ms_fself _ _ _ HMS) | apply (ms_cp _ _ _ HMS) | apply (ms_nocp _ _ _ HMS) | apply (ms_int _ _ _ HMS)]. Qed.
 
 
 (* a run that ends where it started (same stack, extended morphism) can be put in front *)
@@ -2057,7 +2110,7 @@ Definition act_rel (m : morph) (kd : fkind) (fd : fdef) (cenv : Eval.env) (vec :
   match kd with
   | KTop => cenv = [] /\ gl = []
   | _ => In (vec, gl) (mv m) /\
-         Forall2 (fun y a => exists c, lookup y cenv = Some c /\ vrel m c a) (fvs_fd TL fd) gl /\
+         Forall2 (fun y a => exists c, lookup y cenv = Some c /\ vrel m c a /\ (mem_id y IV = true -> In c (mi m))) (fvs_fd TL fd) gl /\
          (forall x c, lookup x cenv = Some c -> is_fname FS x = false) /\
          (kd = KNamed -> exists cf, lookup (fd_name fd) cenv = Some cf /\ In (cf, (fd, cenv)) (mf m))
   end.
@@ -2158,7 +2211,7 @@ Proof.
   rewrite Ecode in *. clear Ecode. cbn [length].
   assert (Hcell : nth_error (cells st) cf = Some (CFun sfd scenv)).
   { destruct (ms_fcl _ _ _ HMS _ _ _ Hrec) as [Hx | (Hx & _)]; [exact Hx | congruence]. }
-  assert (Hfr : CompileCorrect4Rel.fun_rel (g_all G) (x_ftab X) TL FS m sfd scenv (r_gp fr) (faddr (nstd + kself))).
+  assert (Hfr : CompileCorrect4Rel.fun_rel (g_all G) (x_ftab X) TL FS cp m sfd scenv (r_gp fr) (faddr (nstd + kself))).
   { split; [exists kself, KNamed; split; [discriminate | split; [exact Hk | reflexivity]]|].
     split; [exact Hnf|]. exists gl. split; [exact Hgv | exact HFv]. }
   destruct (MS_copy m st h cf sfd scenv (r_gp fr) (faddr (nstd + kself)) [] HMS Hcp Hcell
@@ -2482,7 +2535,7 @@ Proof.
     exists cg. split; [exact Hl | eapply ext_nth; eauto]. }
   assert (Hact : act_rel m1 KNamed sfd scenv (r_gp fr) gl).
   { split; [eapply ext_vec; eauto|]. split; [|split; [exact Hnf|]].
-    - eapply Forall2_imp; [|exact HFv]. intros y a (c & Y1 & Y2). exists c. split; [exact Y1 | eapply vrel_ext; eauto].
+    - eapply Forall2_imp; [|exact HFv]. intros y a (c & Y1 & Y2 & Y3). exists c. split; [exact Y1|]. split; [eapply vrel_ext; eauto | intros Yi; eapply ext_mi; eauto].
     - intros _. exists cf. split; [|exact Hrec1]. eapply (ms_fself _ _ _ HMS1); eauto. }
   set (h1' := h1 ++ [HFun (r_gp fr) (faddr (nstd + kself))]).
   assert (HMS1' : MS m1 st1 h1') by (unfold h1'; apply MS_heap_app; exact HMS1).
@@ -2599,9 +2652,10 @@ Proof.
   intros kidx kd fd cenv vec gl cs penv astk m Hk Hok Hnt Hb HF Hg Hact.
   unfold Compile4.func_in_P in Hok. cbn [fst snd] in Hok.
   apply andb_true_iff in Hok; destruct Hok as [Hok _].
+  apply andb_true_iff in Hok; destruct Hok as [Hok Hp6].
   apply andb_true_iff in Hok; destruct Hok as [Hok Hpn]. apply andb_true_iff in Hok; destruct Hok as [_ Hown].
   apply negb_true_iff in Hown.
-  split; [|split; [|split; [|split; [|split; [|split]]]]].
+  split; [|split; [|split; [|split; [|split; [|split; [|split]]]]]].
   - intros x Hx. unfold body_scope in Hx. rewrite mem_id_app in Hx.
     destruct (mem_id x (param_names (fd_params fd))) eqn:Ep.
     + destruct (param_env_names _ _ _ _ m [] Hb HF x Ep) as (i & c & a & H1 & H2 & H3 & H4 & H5).
@@ -2610,7 +2664,7 @@ Proof.
     + cbn [orb] in Hx. destruct kd; [discriminate Hx | |];
         (destruct Hact as (Hin & HF2 & Hnf & _);
          apply mem_id_true_In in Hx; destruct (In_nth_error _ _ Hx) as (i & Hi);
-         destruct (Forall2_nth_l _ _ _ _ _ HF2 Hi) as (a & Ha & c & Hl & Hm);
+         destruct (Forall2_nth_l _ _ _ _ _ HF2 Hi) as (a & Ha & c & Hl & Hm & Hmi);
          destruct (fvs_fd_props TL fd x Hx) as (P1 & P2 & P3);
          destruct (bind_params_not_param _ _ _ x Hb P1) as [Hn1 Hn2];
          exists c, a; split; [rewrite lookup_app, Hn1; exact Hl|]; split; [exact Hm|];
@@ -2635,6 +2689,17 @@ Proof.
     unfold body_scope. rewrite mem_id_app, Hown. cbn [orb].
     destruct (mem_id (fd_name fd) (fvs_fd TL fd)) eqn:Em; [|reflexivity]. exfalso.
     apply mem_id_true_In in Em. destruct (fvs_fd_props TL fd _ Em) as (_ & _ & P3). rewrite N.eqb_refl in P3. discriminate.
+  - intros x c Hxs Hx Hl. unfold body_scope in Hxs. rewrite mem_id_app in Hxs.
+    destruct (mem_id x (param_names (fd_params fd))) eqn:Ep.
+    + exfalso. apply mem_id_true_In in Ep. destruct (at6_iv _ _ Hp6 Hx) as [A B].
+      rewrite forallb_forall in B. specialize (B x Ep). rewrite A in B. discriminate B.
+    + cbn [orb] in Hxs. destruct kd; [discriminate Hxs | |];
+        (destruct Hact as (_ & HF2 & _);
+         apply mem_id_true_In in Hxs; destruct (In_nth_error _ _ Hxs) as (i & Hi);
+         destruct (Forall2_nth_l _ _ _ _ _ HF2 Hi) as (a & Ha & c0 & Hl0 & Hm & Hmi);
+         destruct (fvs_fd_props TL fd x Hxs) as (P1 & _ & _);
+         destruct (bind_params_not_param _ _ _ x Hb P1) as [Hn1 _];
+         rewrite lookup_app, Hn1 in Hl; rewrite Hl0 in Hl; inversion Hl; subst c0; exact (Hmi Hx)).
 Qed.
 
 Lemma step_rethrow_any : forall prog ip stk h o g e F fs,
@@ -2664,7 +2729,7 @@ Lemma act_rel_ext : forall m m' kd fd cenv vec gl, ext m m' -> act_rel m kd fd c
 Proof.
   intros m m' kd fd cenv vec gl He H. destruct kd; [exact H | |];
     (destruct H as (A & B & C & D); split; [eapply ext_vec; eauto|]; split; [|split; [exact C|]];
-     [eapply Forall2_imp; [|exact B]; intros y a (c & Y1 & Y2); exists c; split; [exact Y1 | eapply vrel_ext; eauto]
+     [eapply Forall2_imp; [|exact B]; intros y a (c & Y1 & Y2 & Y3); exists c; split; [exact Y1 | split; [eapply vrel_ext; eauto | intros Yi; eapply ext_mi; eauto]]
      | intros E; destruct (D E) as (cf & D1 & D2); exists cf; split; [exact D1 | eapply ext_fcl; eauto]]).
 Qed.
 
@@ -3153,6 +3218,7 @@ Lemma titems_bind_step : forall k x e t, expr_spec fc gl k -> titems_spec k ->
   | (ROk c, st1) => eval_items genv k ((x, c) :: env) st1 t (Some c)
   | r => r end = (r, st') ->
   forall sc, negb (is_fname FS x) && negb (self_is (fc_self fc) x) && in_F (fc_self fc) lv sc e && items_F (fc_self fc) lv (x :: sc) t = true ->
+  (mem_id x IV = true -> int_shaped e = true) ->
   forall prog pc L ce stk h o m g e0 F fs,
     code_at prog pc (compile_expr fc L ce e ++ compile_items_tl self (L + 1) ((x, L + 1) :: ce) t) ->
     MS m st h -> o = out st -> env_match_g fc g gl m env ce sc L stk ->
@@ -3161,7 +3227,7 @@ Lemma titems_bind_step : forall k x e t, expr_spec fc gl k -> titems_spec k ->
       (compile_expr fc L ce e ++ compile_items_tl self (L + 1) ((x, L + 1) :: ce) t)
       (1 + nbinds t) m r st' e0 F fs.
 Proof.
-  intros k x e t IHe IHi env st r st' He sc HF prog ip L ce stk h o m g e0 F fs Hc HMS Hout Hem Hlen.
+  intros k x e t IHe IHi env st r st' He sc HF Hxi prog ip L ce stk h o m g e0 F fs Hc HMS Hout Hem Hlen.
   set (frc := mkfr g e0 F fs) in *.
   apply andb_true_iff in HF; destruct HF as [HF Ft].
   apply andb_true_iff in HF; destruct HF as [HF Fe].
@@ -3176,10 +3242,22 @@ Proof.
       eapply raises_weaken; [exact Hr | lia | rewrite app_length; lia]. }
   destruct Ha as (s1 & m1 & a1 & Hst1 & Hip1 & Hstk1 & Hm1 & HMS1 & Hext1 & Hout1 & Hfr1).
   destruct s1 as [ip1 stk1 h1 o1 fr1]; simpl in Hip1, Hstk1, HMS1, Hout1, Hfr1; subst ip1 stk1 fr1.
+  (* a name that may be assigned to: its cell, an int cell, is recorded *)
+  assert (Hadd : exists m1', MS m1' st1 h1 /\ ext m1 m1' /\ (mem_id x IV = true -> In c1 (mi m1'))).
+  { destruct (mem_id x IV) eqn:Exi.
+    - destruct (vrel_kind _ _ _ _ _ HMS1 Hm1) as (v & Hcv & _).
+      assert (Hiv : is_intv v = true) by (eapply int_shaped_cell; [apply Hxi; reflexivity | exact Ea | exact Hcv]).
+      destruct (MS_addint m1 st1 h1 c1 v HMS1 Hcv ltac:(destruct v; try discriminate Hiv; exact I)) as (A & B & C).
+      eexists. split; [exact A|]. split; [exact B|]. intros _. exact C.
+    - exists m1. split; [exact HMS1|]. split; [apply ext_refl|]. intros Hx; discriminate Hx. }
+  destruct Hadd as (m1' & HMS1' & Hext1' & Hci).
+  assert (Hext1n : ext m m1') by (eapply ext_trans; [exact Hext1 | exact Hext1']).
+  assert (Hm1n : vrel m1' c1 a1) by (eapply vrel_ext; [exact Hext1' | exact Hm1]).
+  clear Hext1 Hm1 HMS1 Hext1'. clear m1. rename m1' into m1. rename Hext1n into Hext1. rename Hm1n into Hm1. rename HMS1' into HMS1.
   assert (Hlen1 : Z.of_nat (length (a1 :: stk)) = L + 1 + Z.of_nat (length (fd_params fd))) by (simpl length; lia).
   pose proof (IHi t _ _ _ _ _ He (x :: sc) Ft prog (ip + length ca)%nat (L + 1) ((x, L + 1) :: ce)
                 (a1 :: stk) h1 o1 m1 g e0 F fs (code_at_app_r _ _ _ _ Hc) HMS1 Hout1
-                (env_match_bind _ _ _ _ _ _ _ _ _ x c1 a1 (env_match_ext _ _ _ _ _ _ _ _ _ _ Hem Hext1) Hm1 Hnx Hsx) Hlen1) as Ht.
+                (env_match_bind _ _ _ _ _ _ _ _ _ x c1 a1 (env_match_ext _ _ _ _ _ _ _ _ _ _ Hem Hext1) Hm1 Hnx Hsx Hci) Hlen1) as Ht.
   fold ct frc in Ht.
   replace (1 + nbinds t) with (nbinds t + Z.of_nat (length [a1])) by (simpl length; lia).
   eapply (titems_lift _ _ _ [a1] _ _ (ip + length ca)%nat ct); [exact Hst1 | reflexivity | reflexivity | exact Hext1 | lia | rewrite app_length; lia | exact Ht].
@@ -3235,9 +3313,15 @@ Proof.
   destruct items as [|it t]; [discriminate HF|].
   destruct it as [x e | x e | fd0 | e].
   - rewrite eval_items_ILet in He. rewrite items_F1_let in HF. rewrite compile_items_tl_let in *.
+    apply andb_true_iff in HF; destruct HF as [H6 HF].
+    assert (Hxi : mem_id x IV = true -> int_shaped e = true).
+    { intros Hx. destruct (at6_iv _ _ H6 Hx) as [A B]. rewrite A in B. discriminate B. }
     change (nbinds (ILet x e :: t)) with (1 + nbinds t).
     eapply titems_bind_step; eauto.
   - rewrite eval_items_IVar in He. rewrite items_F1_var in HF. rewrite compile_items_tl_var in *.
+    apply andb_true_iff in HF; destruct HF as [H6 HF].
+    assert (Hxi : mem_id x IV = true -> int_shaped e = true).
+    { intros Hx. destruct (at6_iv _ _ H6 Hx) as [A B]. rewrite A in B. exact B. }
     change (nbinds (IVar x e :: t)) with (1 + nbinds t).
     eapply titems_bind_step; eauto.
   - eapply titems_run_step; eauto.
@@ -3494,7 +3578,7 @@ Proof.
     exists cg. split; [exact Hl | eapply ext_nth; eauto]. }
   assert (Hact : act_rel m1 KNamed sfd scenv g gl).
   { split; [eapply ext_vec; eauto|]. split; [|split; [exact Hnf|]].
-    - eapply Forall2_imp; [|exact HFv]. intros y a (c & Y1 & Y2). exists c. split; [exact Y1 | eapply vrel_ext; eauto].
+    - eapply Forall2_imp; [|exact HFv]. intros y a (c & Y1 & Y2 & Y3). exists c. split; [exact Y1|]. split; [eapply vrel_ext; eauto | intros Yi; eapply ext_mi; eauto].
     - intros _. exists cf. split; [|exact Hrec1]. eapply (ms_fself _ _ _ HMS1); eauto. }
   assert (Esfd : sfd = fd).
   { pose proof (po_named _ Hpo kidx kd fd Hk) as Hfi2. rewrite Hfi in Hfi2.
@@ -3574,6 +3658,7 @@ Proof.
   pose proof Hfok as Hfok0.
   unfold Compile4.func_in_P in Hfok0. cbn [fst snd] in Hfok0.
   apply andb_true_iff in Hfok0; destruct Hfok0 as [Hfok0 Hcat].
+  apply andb_true_iff in Hfok0; destruct Hfok0 as [Hfok0 _].
   apply andb_true_iff in Hfok0; destruct Hfok0 as [Hfok0 _].
   apply andb_true_iff in Hfok0; destruct Hfok0 as [HFb _].
   set (fc := ctx_of TL kd fd).
